@@ -374,11 +374,13 @@ func decodeGoToSexpHelper(r interface{}, depth int, env *Zlisp, preferSym bool) 
 			}
 		}
 		hash, err := MakeHash(pairs, typeName, env)
+		// a record that does not satisfy its declared struct type must not be
+		// handed out half filled (the error used to be overwritten below).
+		panicOn(err)
 		if foundzKeyOrder {
 			err = SetHashKeyOrder(hash, keyOrd)
 			panicOn(err)
 		}
-		panicOn(err)
 		return hash
 
 	case []byte:
